@@ -162,6 +162,13 @@ func c39(c *Ctx) {
 		for _, s := range starts {
 			c.MustFact(s, "start-only-when-not-started", Truth(FieldLoad(fStarted), false))
 		}
+		for _, r := range returnsOf(sw) {
+			if !instrDominates(one(c, "store to childInUse in switchToChild", storesToField(sw, fInUse)), r) {
+				// the early return: only for the child already in use and started
+				c.MustFact(r, "early-return-only-for-child-in-use", Cmp(FieldLoad(fInUse), token.EQL, FieldLoad(fName)))
+				c.MustFact(r, "early-return-only-if-started", Truth(FieldLoad(fStarted), true))
+			}
+		}
 		st := one(c, "store to childInUse in switchToChild", storesToField(sw, fInUse))
 		c.ValueIs(st, st.Val, "child-in-use-is-the-switched-child", FieldLoadOn(fName, ParamV("child")))
 		c.WhoMayMutate("childInUse", fInUse, c.scope(prio), prio+"."+pb+".switchToChild", prio+"."+pb+".UpdateClientConnState", prio+"."+pb+".Close")
